@@ -63,6 +63,8 @@ def feature_tag(case):
         t.append("AQ1")
     if c.get("rate_control_mode", 0):
         t.append("RC%d" % c["rate_control_mode"])
+    if c.get("rate_control_mode", 0) and c.get("min_qp_allowed", 1) == 0:
+        t.append("MINQ0")
     if isinstance(case, dict) and case.get("twopass"):
         t.append("2PASS")
     if c.get("film_grain_denoise_strength", 0):
